@@ -3,7 +3,8 @@
    Clause order (harness/c17.py `clauses`):
      config_verifies, endpoints_defined, rm_exists, launch_methods_exist,
      scheduler_exists, executor_exists, agent_config_exists,
-     valid_request_sized, min_nodes, job_counts, agent_told_same *)
+     valid_request_sized, min_nodes, job_counts, agent_told_same,
+     staged_cfg_is_own, agent_told_what_job_requests *)
 From Coq Require Import ZArith List Bool String.
 From RP Require Import Common.Eqb Configs.Model Gen.Configs.
 Import ListNotations.
@@ -80,7 +81,7 @@ Definition resolves_ok (r : res resolved) : bool :=
   | inl _ => false
   end.
 
-Definition na := [true; true; true; true].
+Definition na := [true; true; true; true; true; true].
 
 Definition c17_resolve_row (site rname : string) (schema : option string) (in_batch : bool)
   (obs : res resolved) : list bool :=
@@ -170,7 +171,8 @@ Definition c17_size_row (site rname : string) (schema : option string) (q : requ
     end;
     on_ok (fun p s => ok_min_nodes p q s);
     on_ok (fun p s => ok_job_counts p s);
-    match obs with inr s => negb (nonneg_req q) || ok_agent_same s | inl _ => true end ].
+    match obs with inr s => negb (nonneg_req q) || ok_agent_same s | inl _ => true end;
+    true; true ].
 
 (* a submission bulk: several pilots prepared from ONE resource config object
    (_start_pilot_bulk).  Every pilot of the bulk has to meet the per-pilot
@@ -181,20 +183,42 @@ Fixpoint all2 {A B} (f : A -> B -> bool) (a : list A) (b : list B) : bool :=
   | _, _ => true
   end.
 
+Definition told_eqb (a b : told) : bool :=
+  (t_pid a =? t_pid b) && (t_sandbox a =? t_sandbox b) && (t_nodes a =? t_nodes b)
+  && (t_backup a =? t_backup b) && (t_cores a =? t_cores b) && (t_gpus a =? t_gpus b)
+  && (t_cpn a =? t_cpn b) && (t_gpn a =? t_gpn b).
+
+(* the agent configuration that arrived in the sandbox of pilot i is the one
+   prepared for pilot i *)
+Definition ok_staged_own (i : nat) (t : option told) : bool :=
+  match t with
+  | Some t => (t_pid t =? Z.of_nat i) && (t_sandbox t =? Z.of_nat i)
+  | None => false
+  end.
+
+(* the agent reads the node, core and GPU figures its job requests *)
+Definition ok_told_job (s : sized) (t : option told) : bool :=
+  match t with
+  | Some t => (t_nodes t + t_backup t =? s_node_count s) && (t_cores t =? s_total_cpu s)
+              && (t_gpus t =? s_total_gpu s)
+  | None => false
+  end.
+
 Definition c17_bulk_row (site rname : string) (schema : option string) (qs : list request)
-  (obs : res (list sized)) : list bool :=
+  (obs : res (list (sized * option told))) : list bool :=
   let sh := shipped (site, rname, schema) in
   let pl q := platform site rname schema (q_env_smt q) in
   let each (f : nodeparams -> request -> sized -> bool) :=
       match obs with
-      | inr ss => (List.length ss =? List.length qs)%nat
-                  && all2 (fun q s => match pl q with
-                                      | inr (_, p) => negb (sh && nonneg_req q) || f p q s
+      | inr rs => (List.length rs =? List.length qs)%nat
+                  && all2 (fun q r => match pl q with
+                                      | inr (_, p) => negb (sh && nonneg_req q) || f p q (fst r)
                                       | inl _ => true
-                                      end) qs ss
+                                      end) qs rs
       | inl _ => true
       end in
-  [ res_eqb (eqb_list sized_eqb) (launch_bulk T site rname schema qs) obs;
+  [ res_eqb (eqb_list (eqb_prod sized_eqb (eqb_option told_eqb)))
+            (launch_bulk_staged T site rname schema qs) obs;
     true; true; true; true; true; true; true;
     negb (sh && forallb (fun q => match pl q with
                                   | inr (ma, p) => valid_request ma p q
@@ -202,4 +226,12 @@ Definition c17_bulk_row (site rname : string) (schema : option string) (qs : lis
                                   end) qs) || is_ok obs;
     each (fun p q s => ok_min_nodes p q s);
     each (fun p q s => ok_job_counts p s);
-    each (fun p q s => negb (nonneg_req q) || ok_agent_same s) ].
+    each (fun p q s => negb (nonneg_req q) || ok_agent_same s);
+    match obs with
+    | inr rs => forallb (fun x => ok_staged_own (fst x) (snd (snd x))) (enumerate rs)
+    | inl _ => true
+    end;
+    match obs with
+    | inr rs => forallb (fun r => ok_told_job (fst r) (snd r)) rs
+    | inl _ => true
+    end ].
